@@ -19,7 +19,7 @@ RULE = (
   "J, pos, margin, D, vel, aref, frictionloss; plus contact.efc_address consistency; non-trivial = >=2 constraint kinds and nefc>=3; distinct by sha1(case)"
 )
 ASSUMPTIONS = ["MuJoCo C 3.13 is the reference", "cases whose contact sets differ (C04 boundary cases) are skipped and counted", "tolerances J/pos 1e-4, D/aref 2e-3 relative"]
-BUDGET = {"quick": dict(examples=480, seconds=150, workers=16), "thorough": dict(examples=12000, seconds=1500, workers=16)}
+BUDGET = {"quick": dict(examples=480, seconds=420, workers=16), "thorough": dict(examples=12000, seconds=1500, workers=16)}
 _CONTACT_TYPES = (5, 6, 7)
 
 
